@@ -12,7 +12,7 @@ func init() {
 		Runs: []HarnessRun{
 			{Pkg: "wire", Entry: "VerifH11", What: "'S' then only TLS; stuffed plaintext never interpreted; 'N' then plaintext continues",
 				Quick: map[string]int{"STUFF": 4}, Thorough: map[string]int{"STUFF": 9},
-				Witnesses: []string{"upgraded", "stuffed-startup-ignored", "refused-then-plaintext", "cancel-after-upgrade", "repeated-sslrequest-inside-tls", "empty-config-on-field"}},
+				Witnesses: []string{"upgraded", "stuffed-startup-ignored", "refused-then-plaintext", "cancel-after-upgrade", "repeated-sslrequest-inside-tls", "empty-config-on-field", "limit-enforced-inside-tls", "limit-enforced-after-refusal"}},
 			{Pkg: "wire", Entry: "VerifH12b", What: "CancelRequest after the SSL refusal closes without reply or callback",
 				Quick: map[string]int{}, Witnesses: []string{"cancel-after-ssl"}},
 		},
